@@ -38,38 +38,38 @@ func nodeFacts(x *X) error {
 		return err
 	}
 	sbCalls := x.Calls(sb)
-	iUpd, iDesc := CallIndex(sbCalls, "idKeeper.update"), CallIndex(sbCalls, "NewBundleDescriptorFromBundle")
+	iUpd, iDesc := CallIndex(sbCalls, "idKeeper.updateUnless"), CallIndex(sbCalls, "NewBundleDescriptorFromBundle")
+	if iUpd < 0 {
+		iUpd = CallIndex(sbCalls, "idKeeper.update")
+	}
 	x.Bool("seqAssignedFirst", iUpd >= 0 && iDesc >= 0 && iUpd < iDesc)
-	// b43260e: does SendBundle skip the numbers of bundles that are still stored (loop between the first
-	// update and the creation of the descriptor)?
+	// 43cf7bc: does SendBundle skip the numbers of bundles that are still stored? It hands the store's
+	// "is this ID known" to IdKeeper.updateUnless, which increments the counter while the ID is taken,
+	// inside its critical section.
 	sbSk := x.Skeleton(sb)
 	x.StrList("sendBundleSkeleton", sbSk)
-	skips := false
-	loop := []string{"for", "  if _, err := c.store.QueryId(bndl.ID().Scrub()); err != nil", "    break", "  c.idKeeper.update(bndl)"}
-	for i := 0; i+len(loop) <= len(sbSk); i++ {
-		ok := true
-		for j, l := range loop {
-			if sbSk[i+j] != l {
-				ok = false
-				break
+	var uuSk []string
+	if uu, err := x.Func(routingDir, "IdKeeper", "updateUnless"); err == nil {
+		uuSk = x.Skeleton(uu)
+	}
+	x.StrList("updateUnlessSkeleton", uuSk)
+	asksStore := len(sbSk) > 0 && sbSk[0] ==
+		"c.idKeeper.updateUnless(bndl, func(bid bpv7.BundleID) bool { _, err := c.store.QueryId(bid.Scrub()) return err == nil })"
+	loopAt, lockAt, unlockAt := -1, -1, -1
+	for i, l := range uuSk {
+		switch l {
+		case "idk.mutex.Lock()":
+			lockAt = i
+		case "idk.mutex.Unlock()":
+			unlockAt = i
+		case "for ; taken != nil && taken(bndl.ID());":
+			if i+2 < len(uuSk) && uuSk[i+1] == "  idk.data[tpl] = idk.data[tpl] + 1" &&
+				uuSk[i+2] == "  bndl.PrimaryBlock.CreationTimestamp[1] = idk.data[tpl]" {
+				loopAt = i
 			}
-		}
-		if ok {
-			before, after := false, false
-			for _, l := range sbSk[:i] {
-				if l == "c.idKeeper.update(bndl)" {
-					before = true
-				}
-			}
-			for _, l := range sbSk[i+len(loop):] {
-				if strings.Contains(l, "NewBundleDescriptorFromBundle(") {
-					after = true
-				}
-			}
-			skips = before && after
 		}
 	}
-	x.Bool("sendBundleSkipsStored", skips)
+	x.Bool("sendBundleSkipsStored", asksStore && lockAt >= 0 && lockAt < loopAt && loopAt < unlockAt)
 	tr, err := x.Func(routingDir, "Core", "transmit")
 	if err != nil {
 		return err
